@@ -281,6 +281,7 @@ class Interp:
             assigned |= _target_names(st.target)
             assigned.add('$k%d' % ordinal)
         mods = spec.modifies(self, env) if spec.modifies else []
+        mods = list(mods) + [('*', f) for f in (getattr(spec, 'heap_fields_modified', []) or [])]
         for nm in sorted(assigned):
             if nm in env:
                 env[nm] = self.havoc_value(nm, env[nm], spec)
@@ -288,8 +289,13 @@ class Interp:
                 env[nm] = self.fresh_of_kind(nm, spec.locals_kind[nm])
         pre_heap = dict(c.heap)
         for ref, field in mods:
+            if isinstance(ref, str):
+                continue
             r = ref.e if isinstance(ref, SRef) else ref
             c.heap[field] = z3.Store(c.harr(field), r, c.fresh('hv_' + field.replace('$', ''), field_sort(field)))
+        for fld in getattr(spec, 'heap_fields_modified', []) or []:
+            # a whole field may change at data-dependent objects: the invariant says what is preserved
+            c.heap[fld] = c.fresh('hv_all_' + fld.replace('$', ''), c.harr(fld).sort())
         for g in getattr(spec, 'ghost_modifies', []) or []:
             if g in c.ghost:
                 c.ghost[g] = c.fresh('g_' + g, c.ghost[g].sort())
@@ -337,7 +343,11 @@ class Interp:
             c.prove('%s:inv-preserved/%s' % (lname, nm), f, tags=tg[0] if tg else ())
         if v0 is not None:
             v1 = spec.variant(self, env)
-            c.prove('%s:variant/decreases' % lname, z3.And(v0 >= 0, v1 < v0), tags=('termination',))
+            if isinstance(v0, tuple):          # (condition, expression): a variant claimed only under the condition
+                c.prove('%s:variant/decreases' % lname, z3.Implies(v0[0], z3.And(v0[1] >= 0, v1[1] < v0[1])),
+                        tags=('termination',))
+            else:
+                c.prove('%s:variant/decreases' % lname, z3.And(v0 >= 0, v1 < v0), tags=('termination',))
         raise PathEnd()
 
     def check_loop_frame(self, lname, mods, saved_log, saved_fresh):
@@ -364,6 +374,8 @@ class Interp:
                 continue
             seen.add(key)
             if any(ref.eq(fr) for fr in fresh):
+                continue
+            if any(isinstance(r, str) and f == field for r, f in mods):
                 continue
             allowed = [(r.e if isinstance(r, SRef) else r) for r, f in mods if f == field]
             if any(ref.eq(a) for a in allowed):
@@ -641,6 +653,8 @@ class Interp:
                 if cav is not None:
                     return self.class_attr(SClass(pt), attr)
                 self.check_defined(obj, attr)
+                if attr in self.src.namedtuples:
+                    return SClass('namedtuple:' + attr)      # self.X = namedtuple(...) made in __init__
                 return c.read(obj, attr)
             if pt == 'state' or pt == 'fn':
                 if attr == '__name__':
